@@ -1,0 +1,64 @@
+//go:build verif
+
+// Machine-checked contracts (Gobra-style //@ comments) for the verification harness in /verif.
+// This file contains no code; it is compiled only under the build tag "verif".
+package plugin
+
+//@ spec vi(j Int) Int
+//@ spec dtally(k Int) Int
+//@ ghost wit BytesIntArr
+//@ define addrOfEntry(cmd *types.AdminOPCmd, j Int) Bytes = addrOfKey(pubKeyOf(cmd.SInfos[j].PubKey))
+
+// vi(j) is the index of the current validator whose address is the address of signature entry j (or -1);
+// entry j is a valid signature by a current validator with positive power:
+//@ pred validSig(vs *types.ValidatorSet, cmd *types.AdminOPCmd, j Int) = sigOK(pubKeyOf(cmd.SInfos[j].PubKey), cmd.Msg, sigOfBytes(cmd.SInfos[j].Signature)) \
+//@      && vi(j) >= 0 && vs.Validators[vi(j)].VotingPower > 0
+// ... and no earlier entry is a valid signature by the same validator (each signer counted once)
+//@ pred firstValidSig(vs *types.ValidatorSet, cmd *types.AdminOPCmd, j Int) = validSig(vs, cmd, j) \
+//@      && forall(i, 0, j, !(validSig(vs, cmd, i) && bytesEq(addrOfEntry(cmd, i), addrOfEntry(cmd, j))))
+//@ pred uniqueAddrs(vs *types.ValidatorSet) = forall(i, 0, len(vs.Validators), forall(j, 0, len(vs.Validators), i != j ==> !bytesEq(vs.Validators[i].Address, vs.Validators[j].Address)))
+
+//@ func (*AdminOp).CheckMajor23
+//@   props C14
+//@   requires s != nil && s.validators != nil && wfValSet(*s.validators) && uniqueAddrs(*s.validators) && cmd != nil
+//@   defines  forall(j, Int, trigger(vi(j)), vi(j) == -1 || (0 <= vi(j) && vi(j) < len((*s.validators).Validators) && bytesEq((*s.validators).Validators[vi(j)].Address, addrOfEntry(cmd, j))))
+//@   defines  forall(j, Int, forall(i, 0, len((*s.validators).Validators), bytesEq((*s.validators).Validators[i].Address, addrOfEntry(cmd, j)) ==> vi(j) >= 0))
+//@   defines  dtally(0) == 0 && forall(k, Int, trigger(dtally(k+1)), k >= 0 ==> dtally(k+1) == dtally(k) + ite(firstValidSig(*s.validators, cmd, k), (*s.validators).Validators[vi(k)].VotingPower, 0))
+//@   assigns  (*s.validators).totalVotingPower, wit
+//@   atcall VerifyBytes set wit = store(wit, string(address), rangeindex)
+//@   ensures  [distinct-signers-two-thirds] result == (dtally(len(cmd.SInfos)) > totalPower(*s.validators)*2/3)
+//@   ensures  wfValSet(*s.validators)
+//@   loop 0 invariant 0 <= $i && $i <= len(cmd.SInfos) && counted != nil
+//@   loop 0 invariant [each-signer-once] major23 == dtally($i)
+//@   loop 0 invariant [counted-sound] forall(a, String, has(counted, a) ==> 0 <= wit[string(a)] && wit[string(a)] < $i && validSig(*s.validators, cmd, wit[string(a)]) && string(addrOfEntry(cmd, wit[string(a)])) == a)
+//@   loop 0 invariant [counted-complete] forall(i, 0, $i, validSig(*s.validators, cmd, i) ==> has(counted, string(addrOfEntry(cmd, i))))
+
+// the validator-change request decoded from the signed message bytes (reflective JSON decoding is trusted)
+//@ spec attrOf(msg Bytes) *types.ValidatorAttr
+//@ func (*AdminOp).ParseValidator
+//@   trusted
+//@   assigns nothing
+//@   ensures result1 == nil ==> result0 != nil && result0 == attrOf(cmd.Msg)
+//@   ensures result1 != nil ==> result0 == nil
+
+//@ ghost gChecked Bool
+//@ ghost gCheckedCmd Ref
+
+//@ func (*AdminOp).ProcessAdminOP
+//@   props C14
+//@   let va = attrOf(cmd.Msg)
+//@   requires s != nil && cmd != nil && app != nil && s.validators != nil && wfValSet(*s.validators) && s.sw != nil
+//@   assigns  s.ChangedValidators, s.DeleteRefuseKeys, s.AddRefuseKeys, s.DisconnectedPeers, s.ChangedValidators[*], s.DeleteRefuseKeys[*], s.AddRefuseKeys[*], s.DisconnectedPeers[*]
+//@   loop 0 invariant 0 <= $i && $i <= len(peers) && forall(j, 0, len(peers), peers[j] != nil && peers[j].NodeInfo != nil)
+//@   ensures  [unknown-type-rejected] cmd.CmdType != "changeValidator" ==> result != nil
+//@   ensures  [change-needs-sender-and-nonce] len(s.ChangedValidators) != old(len(s.ChangedValidators)) ==> result == nil && bytesEq(appFrom(app), va.Addr) && (va.Nonce + 1 == appNonce(app) || (va.Nonce == 18446744073709551615 && appNonce(app) == 0))
+//@   ensures  [change-is-the-signed-request] len(s.ChangedValidators) != old(len(s.ChangedValidators)) ==> len(s.ChangedValidators) == old(len(s.ChangedValidators)) + 1 && s.ChangedValidators[old(len(s.ChangedValidators))] == va
+//@   ensures  [rejected-changes-nothing] result != nil ==> s.ChangedValidators == old(s.ChangedValidators)
+
+//@ func (*AdminOp).ExecTX
+//@   props C14
+//@   requires s != nil && s.validators != nil && wfValSet(*s.validators) && uniqueAddrs(*s.validators) && app != nil && s.sw != nil
+//@   atcall CheckMajor23 set gChecked = result
+//@   atcall CheckMajor23 set gCheckedCmd = arg_cmd
+//@   atcall ProcessAdminOP assert gChecked && gCheckedCmd == arg_cmd
+//@   ensures  [no-quorum-no-change] calls(ProcessAdminOP) == 0 ==> s.ChangedValidators == old(s.ChangedValidators) && result != nil
